@@ -31,6 +31,7 @@ type Program struct {
 	LoadErrs  []string
 	gtab      globalTable
 	aliases   map[string]map[string]string
+	purity    purityTable
 }
 
 func funcKey(fn *ssa.Function) string {
